@@ -120,7 +120,7 @@ func (c *c06Session) drop() {
 const c06Marker = 0xC06C06C0
 
 // a clean announcement of the given IPv4 prefixes, recognisable by its MED
-func c06Announce(peer int, use2 bool, nlri [][]byte) []byte {
+func c06Announce(peer int, use2 bool, nlri [][]byte, nlri6 [][]byte) []byte {
 	m := &c06Msg{peer: peer, use2: use2, nlri: nlri}
 	as := []byte{2, 1, 0, 0, 0xfc, 0x01}
 	if peer == 2 {
@@ -136,8 +136,25 @@ func c06Announce(peer int, use2 bool, nlri [][]byte) []byte {
 		{typ: 4, flags: 0x80, val: []byte{0xC0, 0x6C, 0x06, 0xC0}, decl: -1},
 		{typ: 5, flags: 0x40, val: []byte{0, 0, 0, 100}, decl: -1},
 	}
+	if len(nlri6) > 0 {
+		v := []byte{0, 2, 1, 16, 0x20, 0x01, 0x0d, 0xb8, 0, 0, 0, 0, 0, 0, 0, 0, 0, 0, 0, 0x77, 0}
+		for _, p := range nlri6 {
+			v = append(v, p...)
+		}
+		m.attrs = append(m.attrs, c06Attr{typ: 14, flags: 0x80, val: v, decl: -1})
+	}
 	return m.body()
 }
+
+func c06PrefixKey6(b []byte) string {
+	var a [16]byte
+	copy(a[:], b[1:])
+	return netip.PrefixFrom(netip.AddrFrom16(a), int(b[0])).String()
+}
+
+// prefixes nobody but the clean announcement ever names
+var c06Bystander4 = []byte{24, 200, 1, 1}
+var c06Bystander6 = []byte{48, 0x20, 0x01, 0x0d, 0xb8, 0xff, 0xff}
 
 func c06PrefixKey(b []byte) string {
 	var a [4]byte
@@ -303,16 +320,35 @@ func TestVerifC06Server(t *testing.T) {
 		hx := m.hex()
 		detail := map[string]any{"body": hx, "faults": m.faultNames(), "peer": m.peer, "revised": revised, "use2": m.use2, "v6": v6}
 
-		// the prefixes M names are first announced cleanly, so that "treated as withdraw" is visible
-		pre := !m.framing && len(m.nlri) > 0
+		// every prefix M names anywhere (NLRI, WITHDRAWN ROUTES, intact MP_REACH / MP_UNREACH) plus two
+		// bystanders are first announced cleanly by the same peer, so that withdrawals are visible
+		pre := !m.framing
+		var reach6, unreach6 [][]byte
+		for i := range m.attrs {
+			a := &m.attrs[i]
+			if a.tag == "" && m.count(a.typ) == 1 {
+				if a.typ == 14 {
+					reach6 = c06MpPrefixes(a)
+				} else if a.typ == 15 {
+					unreach6 = c06MpPrefixes(a)
+				}
+			}
+		}
 		if pre {
-			if n := c.feed(c06Announce(m.peer, m.use2, m.nlri)); n != nil {
+			both := map[bgp.Family]bgp.BGPAddPathMode{bgp.RF_IPv4_UC: bgp.BGP_ADD_PATH_NONE, bgp.RF_IPv6_UC: bgp.BGP_ADD_PATH_NONE}
+			f.familyMap.Store(both)
+			f.isTreatAsWithdraw = true
+			n4 := append(append([][]byte{c06Bystander4}, m.nlri...), m.wd...)
+			n6 := append(append([][]byte{c06Bystander6}, reach6...), unreach6...)
+			if n := c.feed(c06Announce(m.peer, m.use2, n4, n6)); n != nil {
 				t.Fatalf("clean announcement rejected: %d/%d", n.ErrorCode, n.ErrorSubcode)
 			}
 			adj, _ := c.routes()
-			if len(adj) == 0 {
+			if len(adj) < 2 {
 				t.Fatalf("clean announcement not installed")
 			}
+			f.familyMap.Store(rf)
+			f.isTreatAsWithdraw = revised
 		}
 		var notif *bgp.BGPNotification
 		panicked := func() (p bool) {
@@ -353,6 +389,18 @@ func TestVerifC06Server(t *testing.T) {
 				got = fmt.Sprintf("handling-%d", int(fm.handling))
 			}
 			got += fmt.Sprintf(" wd=%d nlri=%d", len(u.WithdrawnRoutes), len(u.NLRI))
+			// what table.ProcessMessage makes of the delivered message (same call as peer.handleUpdate)
+			ann, wdn := 0, 0
+			for _, p := range table.ProcessMessage(fm.MsgData.(*bgp.BGPMessage), c.peer.peerInfo.Load(), fm.timestamp, fm.handling == bgp.ERROR_HANDLING_TREAT_AS_WITHDRAW) {
+				switch {
+				case p.IsEOR():
+				case p.IsWithdraw:
+					wdn++
+				default:
+					ann++
+				}
+			}
+			got += fmt.Sprintf(" ann=%d wdn=%d", ann, wdn)
 		default:
 			got = fmt.Sprintf("nothing-delivered-%d", len(c.got))
 		}
@@ -399,43 +447,90 @@ func TestVerifC06Server(t *testing.T) {
 			}
 		}
 		if pre {
-			want := map[string]bool{}
+			// the containment rule itself, prefix by prefix, in Adj-RIB-In and in Loc-RIB
+			named := map[string]string{} // key -> "ann" | "wd"
 			for _, p := range m.nlri {
-				want[c06PrefixKey(p)] = true
+				named[c06PrefixKey(p)] = "ann"
+			}
+			for _, p := range reach6 {
+				named[c06PrefixKey6(p)] = "ann"
 			}
 			for _, p := range m.wd {
-				delete(want, c06PrefixKey(p)) // named in both fields: the withdrawal is processed last
+				named[c06PrefixKey(p)] = "wd" // named in both: the withdrawal is processed last
 			}
-			for _, set := range [][]*table.Path{adj, glob} {
+			for _, p := range unreach6 {
+				named[c06PrefixKey6(p)] = "wd"
+			}
+			if len(m.wd)+len(unreach6) > 0 && len(m.nlri)+len(reach6) > 0 {
+				o.stat("announce_and_withdraw_"+rankName[rank], 1)
+			}
+			if len(unreach6) > 0 {
+				o.stat("mp_unreach_"+rankName[rank], 1)
+			}
+			for si, set := range [][]*table.Path{adj, glob} {
+				where := []string{"adj-in", "loc-rib"}[si]
 				have := map[string]*table.Path{}
 				for _, p := range set {
-					if p.GetFamily() == bgp.RF_IPv4_UC && !p.IsWithdraw {
+					if !p.IsWithdraw {
 						have[p.GetNlri().String()] = p
 					}
 				}
-				for k := range want {
-					p := have[k]
-					if p == nil && rank < 2 && o.nFail < 3 {
-						var ks []string
-						for kk := range have {
-							ks = append(ks, kk)
-						}
-						detail["debug_have"] = ks
-						detail["debug_want"] = k
+				for _, k := range []string{c06PrefixKey(c06Bystander4), c06PrefixKey6(c06Bystander6)} {
+					if p := have[k]; p == nil || !c06IsMarked(p) {
+						detail["prefix"] = k
+						o.fail("unrelated-route-of-the-peer-touched:"+where, detail)
 					}
+				}
+				for k, kind := range named {
+					p := have[k]
+					detail["prefix"] = k
 					switch rank {
+					case 4:
+						if p == nil || !c06IsMarked(p) {
+							o.fail("reset-message-partially-applied:"+where, detail)
+						}
 					case 2:
 						if p != nil {
-							o.fail("treat-as-withdraw-leaves-route", detail)
+							if kind == "wd" {
+								o.fail("treat-as-withdraw-skips-explicit-withdrawal:"+where, detail)
+							} else {
+								o.fail("treat-as-withdraw-leaves-route", detail)
+							}
 						}
 					case 0, 1:
-						if p == nil {
+						if kind == "wd" {
+							if p != nil {
+								o.fail("explicit-withdrawal-not-executed:"+where, detail)
+							}
+						} else if p == nil {
 							o.fail("accepted-update-not-installed", detail)
 						} else if c06IsMarked(p) {
 							o.fail("accepted-update-did-not-replace-route", detail)
+						} else if where == "adj-in" {
+							// attribute discard removes the malformed attribute only: what arrived intact is kept
+							// (not judged: MP attributes, AS4_* folded by the 4-octet-AS merge, LOCAL_PREF stripped for eBGP)
+							has := map[byte]bool{}
+							for _, a := range p.GetPathAttrs() {
+								has[byte(a.GetType())] = true
+							}
+							for i := range m.attrs {
+								a := &m.attrs[i]
+								if a.tag != "" || m.count(a.typ) != 1 || a.typ == 5 || a.typ == 14 || a.typ == 15 || a.typ == 17 || a.typ == 18 {
+									continue
+								}
+								if a.typ == 3 && p.GetFamily() != bgp.RF_IPv4_UC {
+									continue
+								}
+								if !has[a.typ] {
+									detail["missing_type"] = a.typ
+									o.fail("accepted-route-lacks-wellformed-attribute", detail)
+									delete(detail, "missing_type")
+								}
+							}
 						}
 					}
 				}
+				delete(detail, "prefix")
 			}
 		}
 	}
